@@ -1041,7 +1041,9 @@ func parseLetFuncDef(pLet func(ParseState) frt.Tuple2[ParseState, LLetVarDef], p
 	rtype := (func() FType {
 		switch (rtypeDef).(type) {
 		case FType_FTypeVar:
-			return frt.Pipe(blockToExpr(block), ExprToType)
+			btype := frt.Pipe(blockToExpr(block), ExprToType)
+			updateResolver(ps5.tvc.resolver, unifyType(rtypeDef, btype))
+			return btype
 		default:
 			return rtypeDef
 		}
